@@ -110,6 +110,13 @@ func scenarioC14(r *Run) {
 		n = 5
 	}
 	overlap := 1 + c.Pick(3, "overlap")
+	if !CarrierIsDNS(carrier) && !CarrierIsKCP(carrier) && c.Chance(1, 6, "crowd") {
+		// a crowd: dozens of logical connections open at the same time (pools, free lists and tables that
+		// a handful of connections never fills)
+		n = 20 + c.Pick(24, "crowd-size")
+		overlap = n
+		r.Count("runs_with_a_crowd_of_connections")
+	}
 	endMode := []string{"client-shutdown", "carrier-reset", "garbage-frame", "partition-keepalive", "none", "carrier-timeout", "server-closes"}[c.Pick(7, "end-mode")]
 	if endMode == "garbage-frame" && (CarrierEncrypted(carrier) || cfg.ServerCert != "" || CarrierIsKCP(carrier) || CarrierIsDNS(carrier) || strings.HasPrefix(carrier, "ws")) {
 		// garbage can only be injected as stream bytes where the carrier is a cleartext byte stream
@@ -306,6 +313,44 @@ func scenarioC14(r *Run) {
 		return
 	}
 
+	// Some logical connections are open and quiet when the session ends (one run in two): they must be
+	// ended on both sides - the application and the target each see their connection go - and reclaimed.
+	type openConn struct {
+		conn net.Conn
+		done bool // the application's read returned (end-of-stream or error)
+	}
+	var stillOpen []*openConn
+	if endMode != "none" && !strings.HasPrefix(carrier, "stdio") {
+		for k := c.Pick(4, "open-at-session-end"); k > 0; k-- {
+			conn, err := w.DialApp(cfg.Listeners[0])
+			if err != nil {
+				r.Fail("connect", "application could not connect: %v", err)
+				return
+			}
+			oc := &openConn{conn: conn}
+			stillOpen = append(stillOpen, oc)
+			go func() {
+				buf := make([]byte, 256) // (it writes nothing: the target verifies every byte it receives)
+				for {
+					if _, err := conn.Read(buf); err != nil {
+						oc.done = true
+						return
+					}
+				}
+			}()
+		}
+		if len(stillOpen) > 0 {
+			r.RunFor(20 * time.Second)
+			r.CountN("connections_open_at_session_end", len(stillOpen))
+			// the target service hangs up when it is hung up on
+			for _, t := range w.Targets {
+				for _, p := range t.Peers() {
+					p.CloseOnEnd = true
+				}
+			}
+		}
+	}
+
 	// end the physical session
 	switch endMode {
 	case "client-shutdown":
@@ -386,6 +431,16 @@ func scenarioC14(r *Run) {
 	}
 	if endMode != "none" {
 		r.RunFor(5 * time.Minute)
+		for i, oc := range stillOpen {
+			if !oc.done {
+				r.FailSig("not-reclaimed", "carrier="+carrierClass(carrier)+" end="+endMode+" sites=application-connection-not-ended", "five minutes after the session ended by %s, the application of open logical connection %d of %d has not been told (no end-of-stream, no error)", endMode, i, len(stillOpen))
+				return
+			}
+			oc.conn.Close()
+		}
+		if len(stillOpen) > 0 {
+			r.RunFor(30 * time.Second)
+		}
 		l3 := takeLedger(r)
 		if len(r.Spins) > 0 {
 			r.FailSig("busy-loop", "site="+spinSite(r.Spins[0])+" end="+endMode, "after the session ended by %s a goroutine spun without blocking: %s", endMode, r.Spins[0])
